@@ -26,6 +26,9 @@ func TestC12(t *testing.T) {
 		"cannot be evaluated (missing map key, index out of range, division by zero, operand of the wrong type, failing conversion, no payload), used as cel authorizer, as rule level expressions of a cel authorizer, " +
 		"as `if` of a denying pipeline step, as `if` of an error handler, as remote authorizer and as its rule level expressions: 'does not hold' = authorization class (or step/handler not applicable), " +
 		"'cannot be evaluated' = internal class on every entry point, never success and never the answer for 'does not hold'. " +
+		"Failing requests in flight at the same time: on every entry point rounds of 24 requests released together (no sleeps) against rules whose redirect handlers render request dependent locations " +
+		"(the URL of the request, its path, a query value; two rules sharing one handler of the catalogue, one rule selecting between both handlers and the default handler by the kind of the failure), every request with a " +
+		"marker of its own in path and query: each answer has the status of the handler that ran for it and the Location rendered for its own request, never the one of another request. " +
 		"A unit case is non-trivial when the chain mixes >=2 response classes or the deciding kind is only reachable through a wrapper; an e2e case when the probe failed or panicked or the expression does not let the request pass.")
 	r.Assume(
 		"status overrides are taken from 400-599 and redirect codes from 3xx (a configured 2xx would contradict 'never success' by configuration; a configured 1xx makes net/http send an interim response "+
@@ -76,6 +79,8 @@ func TestC12(t *testing.T) {
 	for _, pos := range []string{posCEL, posCELRule, posStepIf, posEHIf, posRemote, posRemoteOvr} {
 		r.Require("e2e_real_unevaluable_"+pos, r.Counter("e2e_real_unevaluable_"+pos), 20)
 	}
+	r.Require("e2e_concurrent_redirects_answered_correctly", r.Counter("e2e_concurrent_redirect_ok"), 1000)
+	r.Require("e2e_concurrent_redirects_with_another_request_in_flight", r.Counter("e2e_concurrent_redirect_ok_with_another_request_in_flight"), 500)
 	r.End()
 }
 
